@@ -510,8 +510,8 @@ class FileSystemStore(DataStoreMixin):
             will be applied to both FileSystemSource and FileSystemSink.
         bundlify (bool): whether to wrap objects in bundles when saving
             them. Default: False.
-        encoding (str): The encoding to use when reading a file from the
-            filesystem.
+        encoding (str): The encoding to use when reading a file from, and
+            writing a file to, the filesystem.
 
     Attributes:
         source (FileSystemSource): FileSystemSource
@@ -527,7 +527,7 @@ class FileSystemStore(DataStoreMixin):
 
         super(FileSystemStore, self).__init__(
             source=FileSystemSource(stix_dir=stix_dir, allow_custom=allow_custom_source, encoding=encoding),
-            sink=FileSystemSink(stix_dir=stix_dir, allow_custom=allow_custom_sink, bundlify=bundlify),
+            sink=FileSystemSink(stix_dir=stix_dir, allow_custom=allow_custom_sink, bundlify=bundlify, encoding=encoding),
         )
 
 
@@ -544,13 +544,16 @@ class FileSystemSink(DataSink):
             added to the FileSystemSource. Default: False
         bundlify (bool): Whether to wrap objects in bundles when saving them.
             Default: False.
+        encoding (str): The encoding to use when writing a file to the
+            filesystem.
 
     """
-    def __init__(self, stix_dir, allow_custom=False, bundlify=False):
+    def __init__(self, stix_dir, allow_custom=False, bundlify=False, encoding='utf-8'):
         super(FileSystemSink, self).__init__()
         self._stix_dir = os.path.abspath(stix_dir)
         self.allow_custom = allow_custom
         self.bundlify = bundlify
+        self.encoding = encoding
 
         if not os.path.exists(self._stix_dir):
             raise ValueError("directory path for STIX data does not exist")
@@ -559,9 +562,12 @@ class FileSystemSink(DataSink):
     def stix_dir(self):
         return self._stix_dir
 
-    def _check_path_and_write(self, stix_obj, encoding='utf-8', pretty=True):
+    def _check_path_and_write(self, stix_obj, encoding=None, pretty=True):
         """Write the given STIX object to a file in the STIX file directory.
         """
+        if encoding is None:
+            encoding = self.encoding
+
         type_dir = os.path.join(self._stix_dir, stix_obj["type"])
 
         # All versioned objects should have a "modified" property.
